@@ -190,6 +190,7 @@ func (vc *VC) verifyBody() {
 		vc.runDefers(end)
 		fr.returns = append(fr.returns, end)
 	}
+	vc.processUnwinds(fr, nil)
 	vc.frames = vc.frames[:0]
 	exit := vc.merge(fr.returns)
 	if exit == nil {
